@@ -12,6 +12,12 @@ pub enum Kind {
     Z3,
     Cvc5,
     Cvc5Int,
+    /// cvc5 --solve-bv-as-int=sum, one fresh process per query (the integer encoding is
+    /// fast stand-alone but stalls under --incremental)
+    Cvc5IntOneShot,
+    /// incremental z3 with a short cap; on `unknown` the same query is given one-shot to
+    /// cvc5 (bit-blasting) and then to cvc5 --solve-bv-as-int=sum
+    Portfolio,
 }
 
 #[derive(Debug, Clone, PartialEq)]
@@ -55,11 +61,12 @@ pub struct Solver {
     pub stats: Stats,
     pub timeout_ms: u64,
     pub log: Option<std::fs::File>,
+    script: String,
 }
 
 fn spawn(kind: Kind, timeout_ms: u64) -> (Child, ChildStdin, BufReader<ChildStdout>) {
     let mut cmd = match kind {
-        Kind::Z3 => {
+        Kind::Z3 | Kind::Portfolio => {
             let mut c = Command::new("/usr/bin/z3");
             c.arg("-in");
             c
@@ -67,6 +74,12 @@ fn spawn(kind: Kind, timeout_ms: u64) -> (Child, ChildStdin, BufReader<ChildStdo
         Kind::Cvc5 => {
             let mut c = Command::new("cvc5");
             c.args(["--lang", "smt2", "--incremental", "--produce-models", &format!("--tlimit-per={}", timeout_ms)]);
+            c
+        }
+        Kind::Cvc5IntOneShot => {
+            // placeholder process (never queried); queries spawn their own solver
+            let mut c = Command::new("cat");
+            c.arg("-");
             c
         }
         Kind::Cvc5Int => {
@@ -108,7 +121,8 @@ impl Solver {
             declared_frees: vec![],
             stats: Stats::default(),
             timeout_ms,
-            log: None,
+            script: String::new(),
+            log: std::env::var("SYMX_SMT_LOG").ok().and_then(|p| std::fs::OpenOptions::new().create(true).append(true).open(p).ok()),
         };
         s.preamble();
         s
@@ -119,6 +133,11 @@ impl Solver {
             Kind::Z3 => {
                 self.send("(set-option :produce-models true)\n");
                 self.send(&format!("(set-option :timeout {})\n", self.timeout_ms));
+            }
+            Kind::Portfolio => {
+                self.script.push_str("(set-logic ALL)\n");
+                self.send_pipe("(set-option :produce-models true)\n");
+                self.send_pipe(&format!("(set-option :timeout {})\n", self.timeout_ms.min(3000)));
             }
             _ => {
                 self.send("(set-logic ALL)\n");
@@ -140,6 +159,7 @@ impl Solver {
         self.declared_vars.clear();
         self.declared_frees.clear();
         self.stats.restarts += 1;
+        self.script.clear();
         self.preamble();
     }
 
@@ -147,6 +167,17 @@ impl Solver {
         if let Some(l) = &mut self.log {
             let _ = l.write_all(s.as_bytes());
         }
+        if self.kind == Kind::Cvc5IntOneShot {
+            self.script.push_str(s);
+            return;
+        }
+        if self.kind == Kind::Portfolio && !s.starts_with("(check-sat") && !s.starts_with("(get-value") {
+            self.script.push_str(s);
+        }
+        self.send_pipe(s);
+    }
+
+    fn send_pipe(&mut self, s: &str) {
         self.stdin.write_all(s.as_bytes()).expect("solver pipe closed");
     }
 
@@ -269,6 +300,9 @@ impl Solver {
         for l in lits {
             self.define_atom(ar, l.atom);
         }
+        if self.kind == Kind::Cvc5IntOneShot {
+            return self.check_oneshot(lits, model, &["--solve-bv-as-int=sum"]);
+        }
         let mut q = String::from("(check-sat-assuming (");
         for l in lits {
             q.push_str(&Self::lit_str(*l));
@@ -299,6 +333,19 @@ impl Solver {
             }
             Answer::Unknown(r)
         };
+        let mut model = model;
+        if self.kind == Kind::Portfolio {
+            if let Answer::Unknown(_) = ans {
+                self.stats.unknown -= 1;
+                self.stats.queries -= 1;
+                let mut a2 = self.check_oneshot(lits, model.as_deref_mut(), &[]);
+                if let Answer::Unknown(_) = a2 {
+                    a2 = self.check_oneshot(lits, model.as_deref_mut(), &["--solve-bv-as-int=sum"]);
+                }
+                self.stats.seconds += t0.elapsed().as_secs_f64();
+                return a2;
+            }
+        }
         if ans == Answer::Sat {
             if let Some(m) = model {
                 self.read_model(m);
@@ -306,6 +353,76 @@ impl Solver {
         }
         self.stats.seconds += t0.elapsed().as_secs_f64();
         ans
+    }
+
+    fn model_names(&self) -> Vec<String> {
+        let mut names: Vec<String> = Vec::new();
+        for k in &self.declared_inputs {
+            names.push(format!("in{}", k));
+        }
+        for (id, w) in &self.declared_vars {
+            names.push(format!("v{}_{}", id, w));
+        }
+        for k in &self.declared_frees {
+            names.push(format!("f{}", k));
+        }
+        names
+    }
+
+    fn check_oneshot(&mut self, lits: &[Lit], mut model: Option<&mut Witness>, extra: &[&str]) -> Answer {
+        let t0 = Instant::now();
+        let mut text = self.script.clone();
+        for l in lits {
+            text.push_str(&format!("(assert {})\n", Self::lit_str(*l)));
+        }
+        text.push_str("(check-sat)\n");
+        let names = self.model_names();
+        if model.is_some() && !names.is_empty() {
+            text.push_str(&format!("(get-value ({}))\n", names.join(" ")));
+        }
+        if let Ok(p) = std::env::var("SYMX_ONESHOT_DUMP") {
+            let _ = std::fs::write(p, &text);
+        }
+        let child = Command::new("cvc5")
+            .args(["--lang", "smt2", "--produce-models", &format!("--tlimit={}", self.timeout_ms)])
+            .args(extra)
+            .stdin(Stdio::piped())
+            .stdout(Stdio::piped())
+            .stderr(Stdio::null())
+            .spawn();
+        let mut child = match child {
+            Ok(c) => c,
+            Err(e) => return Answer::Unknown(format!("cannot start cvc5: {}", e)),
+        };
+        {
+            let mut si = child.stdin.take().unwrap();
+            let _ = si.write_all(text.as_bytes());
+        }
+        let outp = child.wait_with_output();
+        self.stats.queries += 1;
+        self.stats.seconds += t0.elapsed().as_secs_f64();
+        let out = match outp {
+            Ok(o) => String::from_utf8_lossy(&o.stdout).to_string(),
+            Err(e) => return Answer::Unknown(format!("cvc5 failed: {}", e)),
+        };
+        let first = out.lines().next().unwrap_or("").trim().to_string();
+        if first == "unsat" {
+            self.stats.unsat += 1;
+            Answer::Unsat
+        } else if first == "sat" {
+            self.stats.sat += 1;
+            if let Some(m) = model.as_mut() {
+                let rest: String = out.lines().skip(1).collect::<Vec<_>>().join(" ");
+                m.inputs.clear();
+                m.vars.clear();
+                m.frees.clear();
+                parse_model(&rest, m);
+            }
+            Answer::Sat
+        } else {
+            self.stats.unknown += 1;
+            Answer::Unknown(if first.is_empty() { "no answer (timeout)".into() } else { first })
+        }
     }
 
     fn read_model(&mut self, m: &mut Witness) {
@@ -329,8 +446,14 @@ impl Solver {
         self.send(&q);
         let _ = self.stdin.flush();
         let resp = self.read_sexpr();
+        parse_model(&resp, m);
+    }
+}
+
+fn parse_model(resp: &str, m: &mut Witness) {
+    {
         // tokens: ( ( name value ) ( name value ) ... )
-        let toks = tokenize(&resp);
+        let toks = tokenize(resp);
         let mut i = 0;
         while i < toks.len() {
             if toks[i] == "(" && i + 2 < toks.len() && toks[i + 1] != "(" {
@@ -360,13 +483,6 @@ impl Solver {
                 i += 1;
             }
         }
-    }
-
-    /// Send raw SMT-LIB text and return one s-expression answer (used by lemma checks).
-    pub fn raw(&mut self, text: &str) -> String {
-        self.send(text);
-        let _ = self.stdin.flush();
-        self.read_sexpr()
     }
 }
 
